@@ -90,6 +90,15 @@ func mInversePositiveDefinite(matrix ConstMatrix, inSitu *InSitu, args ...interf
   if err != nil {
     return nil, err
   }
+  // the factor is lower triangular: cholesky.Run leaves whatever a
+  // caller-supplied work space held above the diagonal
+  if n, _ := a.Dims(); n > 0 {
+    for i := 0; i < n; i++ {
+      for j := i+1; j < n; j++ {
+        a.At(i, j).SetFloat64(0.0)
+      }
+    }
+  }
   a  = a.T()
   x := inSitu.Id
   b := inSitu.B
